@@ -267,8 +267,43 @@ def check_moving_average(chk, prog, sim, maxlen):
                     prev_t = t_i
                 if len(chk.samples) < 6:
                     chk.sample({"filter": "MovingAverage/" + variant, "queued": k, "kept": len(kept), "path": [list(p) for p in leaf.pc if p[0] == "rel"], "output": A.show(got)[:160]})
+        # event structure (error / absent) per variant, for the sibling comparison below
+        ev = per_variant[variant].setdefault("__events__", {})
+        for k in range(0, 3):
+            for cat in ("E", "N"):
+                for cache in ("err", "none"):
+                    st = S.State()
+                    sv = sim.expand(st, Sym("self", sty))
+                    fs = list(sv.fields)
+                    qi = [i for i, (n, t) in enumerate(fields) if is_adt(t, "VecDeque")][0]
+                    vi = [i for i, (n, t) in enumerate(fields) if is_adt(t, "Result")][0]
+                    ety = fields[qi][1]["args"][0]
+                    fs[qi] = M.mk_list([Sym("q%d" % j, ety) for j in range(k)], fields[qi][1])
+                    vty = fields[vi][1]
+                    fs[vi] = sim.mk_enum(vty, "Err", [Sym("eold", vty["args"][1])]) if cache == "err" else sim.mk_enum(vty, "Ok", [sim.mk_enum(vty["args"][0], "None")])
+                    oid = st.new_obj("self", Struct(sty, fs))
+                    st.labels[oid] = "self"
+                    outs = set()
+                    for leaf in N.update_with(sim, up, ug, st, oid, cat, "n"):
+                        chk.evaluated(1)
+                        if leaf.kind != "return":
+                            outs.add((leaf.kind,))
+                            continue
+                        post = sim.final_value(leaf.state, leaf.state.mem[oid])
+                        c = K.classify_output(sim, leaf.state, post.fields[vi])
+                        outs.add((len(post.fields[qi].data[0]), c[0] if c else "?"))
+                    ev[(k, cat, cache)] = outs
         if ok:
             chk.discharge(key)
+    ea, eb = per_variant.get("generic", {}).pop("__events__", {}), per_variant.get("Quantity", {}).pop("__events__", {})
+    kev = "ma:variants-agree-on-events"
+    chk.obligation(kev, "generic and Quantity moving averages treat error / absent events identically (queue and cache)")
+    diff = [c for c in sorted(set(ea) | set(eb)) if ea.get(c) != eb.get(c)]
+    if diff or not ea:
+        chk.violation("C12.siblings", kev, "the two moving-average variants handle events differently: (queue length, input, cache) %s: generic %s vs Quantity %s"
+                      % (diff[:2], [ea.get(c) for c in diff[:2]], [eb.get(c) for c in diff[:2]]))
+    else:
+        chk.discharge(kev)
     key = "ma:variants-agree"
     chk.obligation(key, "generic and Quantity moving averages compute the same rational functions on the same cases")
     a, b = per_variant.get("generic", {}), per_variant.get("Quantity", {})
